@@ -584,6 +584,36 @@ func installStringModels(m *Machine) {
 		}
 		return []Val{&TupleV{E: []Val{int64(n), nilV{}}}}, true
 	}
+	for _, name := range []string{"AppendInt", "AppendUint"} {
+		name := name
+		m.Hooks["strconv."+name] = func(m *Machine, st *State, call *ssa.CallCommon, args []Val) ([]Val, bool) {
+			dst, ok := byteSliceOf(st, args[0])
+			n, ok1 := args[1].(int64)
+			base, ok2 := args[2].(int64)
+			if !ok || !ok1 || !ok2 {
+				return nil, false
+			}
+			if name == "AppendInt" {
+				return []Val{byteSliceVal(st, strconv.AppendInt(dst, n, int(base)))}, true
+			}
+			return []Val{byteSliceVal(st, strconv.AppendUint(dst, uint64(n), int(base)))}, true
+		}
+	}
+	m.Hooks["strconv.AppendBool"] = func(m *Machine, st *State, call *ssa.CallCommon, args []Val) ([]Val, bool) {
+		dst, ok := byteSliceOf(st, args[0])
+		b, ok1 := args[1].(bool)
+		if !ok || !ok1 {
+			return nil, false
+		}
+		return []Val{byteSliceVal(st, strconv.AppendBool(dst, b))}, true
+	}
+	m.Hooks["strconv.Quote"] = func(m *Machine, st *State, call *ssa.CallCommon, args []Val) ([]Val, bool) {
+		s, ok := args[0].(string)
+		if !ok {
+			return nil, false
+		}
+		return []Val{strconv.Quote(s)}, true
+	}
 	m.Hooks["strconv.ParseBool"] = func(m *Machine, st *State, call *ssa.CallCommon, args []Val) ([]Val, bool) {
 		s, ok := args[0].(string)
 		if !ok {
